@@ -86,6 +86,21 @@ def differences(xa: str, xb: str) -> dict:
     except ET.ParseError as e:
         return {"unparseable": str(e)}
     found: dict = {}
+    # what a bind's nodeset names in the reference form: a repeat, a group (node with children) or a question
+    repeats = {e.get("nodeset") for e in ra.iter() if _local(e.tag) == "repeat"}
+    try:
+        containers = {p_ for p_, els in XForm(xa).instance_paths().items() if any(len(e) for e in els)}
+    except Exception:  # noqa: BLE001
+        containers = set()
+
+    def refine(region, e):
+        if region == "bind" and _local(e.tag) == "bind":
+            ns_ = e.get("nodeset")
+            return "bind(repeat)" if ns_ in repeats else "bind(group)" if ns_ in containers else "bind(question)"
+        if region == "secondary-instance":
+            t = _local(e.tag)
+            return f"secondary-instance({t if t in ('instance', 'root', 'item') else 'item-child'})"
+        return region
 
     def add(k, detail):
         found.setdefault(k, detail)
@@ -94,7 +109,7 @@ def differences(xa: str, xb: str) -> dict:
         return f"<{_local(e.tag)} {dict(e.attrib)}>"
 
     def walk(a, b, stack):
-        reg = _region(stack)
+        reg = refine(_region(stack), a)
         for k in a.attrib:
             name = _local(k) if _local(k) in STD_ATTRS else "custom"
             if k not in b.attrib:
@@ -121,7 +136,7 @@ def differences(xa: str, xb: str) -> dict:
             pairs = list(zip(range(len(ca)), range(len(cb))))
         elif sorted(sa) == sorted(sb):
             i = next(i for i in range(len(sa)) if sa[i] != sb[i])
-            add(f"{_region(sub(ca[i], flags_a[i]))}:order-changed",
+            add(f"{refine(_region(sub(ca[i], flags_a[i])), ca[i])}:order-changed",
                 f"children of {show(a)} permuted: position {i} holds {show(cb[i])} instead of {show(ca[i])}")
             used = set()
             for i, s_ in enumerate(sa):
@@ -140,9 +155,9 @@ def differences(xa: str, xb: str) -> dict:
                 while ii and jj and ca[ii[0]].tag == cb[jj[0]].tag and not sa[ii[0]][1] and not sb[jj[0]][1]:
                     pairs.append((ii.pop(0), jj.pop(0)))
                 for i in ii:
-                    add(f"{_region(sub(ca[i], flags_a[i]))}:element-lost", f"{show(ca[i])} (child of {show(a)}) is missing")
+                    add(f"{refine(_region(sub(ca[i], flags_a[i])), ca[i])}:element-lost", f"{show(ca[i])} (child of {show(a)}) is missing")
                 for j in jj:
-                    add(f"{_region(sub(cb[j], flags_b[j]))}:element-added", f"{show(cb[j])} (child of {show(a)}) is new")
+                    add(f"{refine(_region(sub(cb[j], flags_b[j])), cb[j])}:element-added", f"{show(cb[j])} (child of {show(a)}) is new")
         for i, j in pairs:
             x, y = ca[i], cb[j]
             walk(x, y, sub(x, flags_a[i]))
